@@ -7,7 +7,7 @@ def run(c):
     obl_kani.run(c, ["k_get_modifiers"])
     obl_fixed.obl_layout_key(c, budget_s=1200)
     # the same property on the layout object the crate's own Layout::parse builds from the file content (whatever the representation)
-    obl_fixed.obl_layout_table(c, thorough=(c.tier == "thorough"), budget_s=1200)
+    obl_fixed.obl_layout_table(c, thorough=(c.tier == "thorough"), budget_s=1200 if c.tier == "quick" else 3000)
     # "the loaded layout file": also the file loaded by a re-configuration of a live context (fixed layout -> another fixed layout)
     import obl_context
     obl_context.obl_layout_switch(c, budget_s=600)
